@@ -121,6 +121,10 @@ impl Program {
             }
         }
 
+        // the symbol table is a hash map, so we sort the instances to make the output deterministic
+        data_types.sort_by(|fst, snd| fst.name.cmp(&snd.name));
+        codata_types.sort_by(|fst, snd| fst.name.cmp(&snd.name));
+
         Ok(CheckedProgram {
             data_types,
             codata_types,
